@@ -191,6 +191,8 @@ def delegate_rule(F, rep, c):
     rep.fn_seen(h)
     try:
         sl = ct.slice_lex(F, h)
+    except ct.Mismatch as e:
+        rep.bad("R10.1", "list-order:" + h.path.rsplit("::", 1)[-1], "identifier list comparison is not 'left to right, then shorter is lower': %s" % e, h.where()); return
     except ct.Unrecognised as e:
         rep.undecided("R10.1", "unrecognised-shape:" + h.path.rsplit("::", 1)[-1], "list comparison %s: %s" % (h.path, e), h.where()); return
     want_elem = "impl std::cmp::Ord for crate::version::semver::core::PreReleaseIdentifier"
